@@ -11,7 +11,7 @@ from vf.gen import pick_weighted
 
 ID = "C04"
 THEOREMS = ["C04_decode_git", "C04_git_decode", "C04_git_decode_exact", "C04_canon_is_git", "C04_decode_long_mode_refuted", "C04_enc_dec",
-            "C04_hfs_dot_eq_git", "C04_hfs_dot_sound", "C04_hfs_dot_malformed_refuted", "C04_ntfs_dotgit_eq_git", "C04_ntfs_dot_eq_git",
+            "C04_hfs_dot_eq_git", "C04_wf_utf8_guard", "C04_hfs_dot_sound", "C04_hfs_dot_malformed_refuted", "C04_ntfs_dotgit_eq_git", "C04_ntfs_dot_eq_git",
             "C04_has_dotgit_refused", "C04_dotgitmodules_eq", "C04_dotgitmodules_symlink",
             "C04_written_clean_structural", "C04_written_clean_partial", "C04_written_clean_refuted",
             "C04_written_gitmodules_malformed_refuted", "C04_written_gitmodules_refuted",
